@@ -252,7 +252,7 @@ MkFlo(T, neg, ip, fp, e) ==
   ELSE IF T = "double" /\ ex < -324 THEN FloZero(T, neg)
   (* below 10^-38 an xs:float is subnormal: its binary value has fewer significant digits than the
      literal, so the decimal digits kept here are approximate (compared at single precision, terminal) *)
-  ELSE [Flo(T, "fin", neg, sig, ex) EXCEPT !.ap = (Len(sig) > 15 \/ (T = "float" /\ ex < -38))]
+  ELSE [Flo(T, "fin", neg, sig, ex) EXCEPT !.ap = (Len(sig) > 15 \/ (T = "float" /\ ex <= -38))]
 EPos(s) == LET S == {i \in 1..Len(s) : s[i] \in {"e", "E"}} IN IF S = {} THEN 0 ELSE SetMin(S)
 ParseFloat(T, s, ver) ==
   IF s = <<"N","a","N">> THEN FloNaN(T)
